@@ -8,8 +8,11 @@
      Theorems: every integer type and value for ceil/floor/next/prevMultiple, isMultiple, mask, gtx mod, pow;
      every 8- and 16-bit value (and every count / shift) for the power-of-two family, findNSB, the rotations, gtx/bit;
      every field for bitfieldFillOne/Zero (8/16/32-bit types); sqrt for every x < 65536; factorial up to 12! / 20!.
-   NOT theorems (correspondence + oracle only): the power-of-two family, findNSB and sqrt on 32/64-bit values beyond
-   the ranges above; floating ceil/floor/roundMultiple beyond the dyadic grid model; nlz.
+     every positive value of EVERY width (8/16/32/64, signed and unsigned) for isPowerOfTwo, ceil/floor/roundPowerOfTwo (results that are
+     representable), every non-zero value for gtx lowestBitValue, every 32-bit value for nlz -- through C05's ladder theorems
+     (P_C05_msb.smear_all: the smear ladder yields the run of ones up to the top bit; findMSB = log2; findLSB = trailing zeros).
+   NOT theorems (correspondence + oracle only): findNSB, highestBitValue / powerOfTwoAbove / Below / Nearest (loops) and sqrt on 32/64-bit
+   values beyond the ranges above; floating ceil/floor/roundMultiple beyond the dyadic grid model.
    Refuted statements = known findings (known_findings.txt): the rotations' direction, roundMultiple,
    floor/roundPowerOfTwo of negative values, roundPowerOfTwo on 8/16-bit types above the top power, pow(x<0, 0),
    bitfieldFillOne/Zero on 64-bit values. *)
@@ -18,7 +21,7 @@ Import ListNotations.
 From GLMV Require Import OrHom.
 From GLMM Require Import Half IntFn BitUtil.
 From W Require A_C18_defs Gen_C18_ladders P_C18_ladders P_C18_w8 P_C18_w16_0 P_C18_w16_1 P_C18_w16_2 P_C18_w16_3 P_C18_w16_4 P_C18_w16_5 P_C18_w16_6 P_C18_w16_7
-  P_C18_sqrt_0 P_C18_sqrt_1 P_C18_sqrt_2 P_C18_sqrt_3 P_C18_general.
+  P_C18_sqrt_0 P_C18_sqrt_1 P_C18_sqrt_2 P_C18_sqrt_3 P_C18_general P_C05_count P_C18_pow2.
 Import A_C18_defs Gen_C18_ladders.
 Local Open Scope Z_scope.
 
@@ -107,6 +110,22 @@ Proof. exact P_C18_general.floorPowerOfTwo_negative_refuted. Qed.
 Theorem C18_roundPowerOfTwo_narrow_refuted : exists x, in_T false 8 x = true /\ nearest_pow2 x (floor_pow2 x) = true /\ in_T false 8 (floor_pow2 x) = true /\ roundPowerOfTwo false 8 x <> floor_pow2 x.
 Proof. exact P_C18_general.roundPowerOfTwo_narrow_refuted. Qed.
 
+(* ---- the power-of-two family on every width: every positive value x of T (x <= maxT) *)
+Theorem C18_isPowerOfTwo_every_positive_value : forall sg w x, P_C05_count.width w -> 0 < x <= maxT sg w -> isPowerOfTwo sg w x = is_pow2 x /\ isPowerOfTwoV sg w x = is_pow2 x.
+Proof. exact P_C18_pow2.isPowerOfTwo_pos. Qed.
+Theorem C18_ceilPowerOfTwo_every_positive_value : forall sg w x, P_C05_count.width w -> 0 < x <= maxT sg w -> ceil_pow2 x <= maxT sg w -> ceilPowerOfTwo sg w x = ceil_pow2 x.
+Proof. exact P_C18_pow2.ceilPowerOfTwo_pos. Qed.
+Theorem C18_floorPowerOfTwo_every_positive_value : forall sg w x, P_C05_count.width w -> 0 < x <= maxT sg w -> floorPowerOfTwo sg w x = floor_pow2 x.
+Proof. exact P_C18_pow2.floorPowerOfTwo_pos. Qed.
+Theorem C18_roundPowerOfTwo_every_positive_value : forall sg w x, P_C05_count.width w -> 0 < x <= maxT sg w -> ceil_pow2 x <= maxT sg w -> nearest_pow2 x (roundPowerOfTwo sg w x) = true.
+Proof. exact P_C18_pow2.roundPowerOfTwo_pos. Qed.
+Theorem C18_lowestBitValue_every_nonzero_value : forall sg w x, P_C05_count.width w -> in_T sg w x = true -> x <> 0 -> umod w (lowestBitValue sg w x) = 2 ^ findLSB sg w x.
+Proof. exact P_C18_pow2.lowestBitValue_all. Qed.
+Theorem C18_nlz_every_value : forall x, 0 <= x < 2 ^ 32 -> nlz x = if x =? 0 then 32 else 31 - Z.log2 x.
+Proof. exact P_C18_pow2.nlz_all. Qed.
+Example C18_pow2_example : ceilPowerOfTwo false 64 9223372036854775807 = 9223372036854775808 /\ floorPowerOfTwo true 32 2147483647 = 1073741824 /\ isPowerOfTwo false 32 2147483648 = true.
+Proof. vm_compute. repeat split; reflexivity. Qed.
+
 (* ---- gtx/integer *)
 Theorem C18_sqrt_below_65536 :
   forallb (fun k => forallb sqrt_ok (zrange (Z.to_nat 16384) (16384 * k))) [0; 1; 2; 3] = true.
@@ -135,3 +154,6 @@ Print Assumptions C18_mask.
 Print Assumptions C18_16bit_all_values.
 Print Assumptions C18_fillOne_every_value.
 Print Assumptions C18_mod_int.
+Print Assumptions C18_ceilPowerOfTwo_every_positive_value.
+Print Assumptions C18_roundPowerOfTwo_every_positive_value.
+Print Assumptions C18_lowestBitValue_every_nonzero_value.
